@@ -221,6 +221,27 @@ func (ex *Exec) havocKeys(st State, keys map[string]bool, why string) State {
 }
 
 func (ex *Exec) havocCall(fr *Frame, instr ssa.CallInstruction, c *ssa.CallCommon, pc Term, st State, resT types.Type) (State, Term, bool) {
+	if c.IsInvoke() {
+		for _, d := range ex.g.cs.Dyn {
+			if d.Pure && dynMatches(d, c.Value.Type(), c.Method.Name()) {
+				// assumed: the method writes nothing and its result depends only on the receiver
+				ex.assumed[fmt.Sprintf("dynamic calls to %s are pure functions of the receiver (%s)", d.Method, d.Why)] = true
+				rs := c.Signature().Results()
+				if rs.Len() != 1 {
+					break
+				}
+				so := ex.te.sortOf(rs.At(0).Type())
+				fname := "dyn_" + sanitize(d.Method)
+				if !ex.ufunUsed[fname] {
+					ex.ufunUsed[fname] = true
+					ex.ufunDecl = append(ex.ufunDecl, fmt.Sprintf("(declare-fun %s (Iface) %s)", fname, so))
+				}
+				r := ex.vc.def("dyn", app(so, fname, ex.val(fr, c.Value)))
+				ex.assumeType(pc, r, rs.At(0).Type())
+				return st, r, false
+			}
+		}
+	}
 	keys := ex.g.siteFrame(instr)
 	name := "dynamic"
 	if callee := c.StaticCallee(); callee != nil {
